@@ -6,8 +6,12 @@ REPO = os.environ.get("VERIF_REPO", "/repo")
 for t in glob.glob(os.path.join(VERIF, "harness", "*", "Cargo.toml.in")):
     out = t[:-3]
     new = open(t).read().replace("@REPO@", REPO)
+    lock = os.path.join(os.path.dirname(t), "Cargo.lock")
     if not os.path.exists(out) or open(out).read() != new:
         open(out, "w").write(new)
-    lock = os.path.join(os.path.dirname(t), "Cargo.lock")
+        # dependencies changed: start again from the repository's full lock file (offline resolution
+        # cannot add packages that the pruned lock no longer lists)
+        if os.path.exists(lock):
+            os.remove(lock)
     if not os.path.exists(lock):
         shutil.copy(os.path.join(REPO, "Cargo.lock"), lock)
